@@ -191,18 +191,30 @@ class StubContext(ChainContext):
         p = {**DEFAULT_PARAMS, **sc.get("params", {})}
         self.p = p
         ref = p.get("ref")
+        # FRAME parameters: protocol parameters the builder / fee / min-ADA code under verification must NOT depend on
+        # (`min_utxo` and `coins_per_utxo_word` belong to the pre-Alonzo rule, the rest to consensus).  They are varied
+        # with the scenario (a function of its content, so a replay sees the same values): a change that makes the
+        # code read one of them — a "sensible default" taken from the wrong parameter — then shows in every oracle.
+        import hashlib, json as _json
+        hb = hashlib.blake2b(_json.dumps([sc.get("params", {}), [u.get("id") for u in sc.get("utxos", [])][:4],
+                                          sc.get("frame")], sort_keys=True, default=str).encode(), digest_size=8).digest()
+        frame_min_utxo = [1000000, 0, 1, 4310, 34482, 65535, 65536, 999978, 2 ** 32, 1000000, 5000000][hb[0] % 11]
+        frame_word = [34482, 0, 1, 4310, 8620, 2 ** 20][hb[1] % 6]
+        frame_pool_cost = [340000000, 0, 170000000][hb[2] % 3]
+        frame_minor = hb[3] % 3
+        self.frame = {"min_utxo": frame_min_utxo, "coins_per_utxo_word": frame_word, "min_pool_cost": frame_pool_cost}
         self._pp = ProtocolParameters(
             min_fee_constant=frac(p["b"]) if frac(p["b"]).denominator != 1 else int(frac(p["b"])),
             min_fee_coefficient=frac(p["a"]) if frac(p["a"]).denominator != 1 else int(frac(p["a"])),
             max_block_size=73728, max_tx_size=int(p["max_tx_size"]), max_block_header_size=1100,
             key_deposit=int(p["key_deposit"]), pool_deposit=int(p["pool_deposit"]), pool_influence=Fraction(3, 10),
             treasury_expansion=Fraction(1, 5), monetary_expansion=Fraction(3, 1000), decentralization_param=0,
-            extra_entropy="", protocol_major_version=9, protocol_minor_version=0, min_utxo=1000000,
-            min_pool_cost=340000000, price_mem=frac(p["price_mem"]), price_step=frac(p["price_step"]),
+            extra_entropy="", protocol_major_version=9, protocol_minor_version=frame_minor, min_utxo=frame_min_utxo,
+            min_pool_cost=frame_pool_cost, price_mem=frac(p["price_mem"]), price_step=frac(p["price_step"]),
             max_tx_ex_mem=int(p["max_mem"]), max_tx_ex_steps=int(p["max_steps"]), max_block_ex_mem=50000000,
             max_block_ex_steps=40000000000, max_val_size=int(p["max_val_size"]),
             collateral_percent=int(p["collateral_percent"]), max_collateral_inputs=int(p["max_collateral_inputs"]),
-            coins_per_utxo_word=34482, coins_per_utxo_byte=int(p["cpb"]),
+            coins_per_utxo_word=frame_word, coins_per_utxo_byte=int(p["cpb"]),
             cost_models={k: {f"p{i:03d}": i * 3 + 1 for i in range(n)} for k, n in p.get("cost_models", {}).items()},
             min_fee_reference_scripts=None if ref is None else {"base": frac(ref["base"]), "range": int(ref["range"]),
                                                                 "multiplier": frac(ref["mult"])},
